@@ -134,6 +134,7 @@ def validate_all(v, traces, timeout, batch):
     batches = [traces[i:i + batch] for i in range(0, len(traces), batch)]
     rejected = []
     states = [0, 0]
+    skipped = [0]
 
     def work(b):
         out = []
@@ -149,15 +150,21 @@ def validate_all(v, traces, timeout, batch):
             ok2, bad2, evno2, st2 = tlc_validate([tr], False, timeout)
             out.append((tr, evno, bad2 is not None, evno2))
             rest = rest[bad + 1:]
+            if len(out) >= 2 and rest:
+                # the verdict is settled; do not spend a TLC run per further rejected history
+                skipped[0] += len(rest)
+                break
         return out
 
     nproc = max(1, min(len(batches), int(os.environ.get("VERIF_MAX_WORKERS", "16"))))
     with ThreadPoolExecutor(max_workers=nproc) as ex:
         for out in ex.map(work, batches):
             rejected += out
+    if skipped[0]:
+        v.notes.append("%d recorded histories were not validated after two rejections in their batch" % skipped[0])
     v.coverage["trace_validation_states"] = states[0]
     v.coverage["trace_validation_transitions"] = states[1]
-    return len(traces) - len(rejected), rejected
+    return len(traces) - len(rejected) - skipped[0], rejected
 
 
 def report_rejected(v, rejected):
@@ -185,6 +192,10 @@ def crash_or_absorb(v, res, out, rc, what, src=None):
         v.violation("pipe.panic/process-crashed", "%s: the driver process died inside netio/pipe.go: %s" % (what, m.group(1) if m else "?"),
                     {"stdout_tail": out[-3000:], "src": src})
         return {"behaviours": 0, "steps": 0, "violations": [], "drift": [], "traces": [], "counters": {}, "distinct": 0, "crashed": True}
+    if res is not None:
+        for k in ("samples", "traces", "violations", "drift", "broken"):
+            if res.get(k) is None:
+                res[k] = []
     return common.absorb(v, res, out, rc, what)
 
 
@@ -219,15 +230,47 @@ def run(tier, seed, replay):
     # C15_SKIP_DESIGN is for mutation experiments only (the design run does not depend on the code)
     design_futs = [pool.submit(design, n) for n in DESIGN[tier]] if not os.environ.get("C15_SKIP_DESIGN") else []
 
-    # (2) replay graphs
-    behs = []
-    v.coverage["replay_graphs"] = {}
-    for name, (c, mode) in REPLAY[tier].items():
+    # (2) replay graphs (TLC runs in the background while the free-running stages execute)
+    def graph_of(name):
+        c, mode = REPLAY[tier][name]
         if mode == "graph":
             g = vlib.tlc(SPEC, "MCPipe", "MCPipe.cfg", c, workers=4, timeout=1500, edges=True, heap="6g", edge_limit=3000000)
         else:
             g = vlib.tlc(SPEC, "MCPipe", "MCPipe.cfg", c, workers=1, timeout=900 if big else 200, edges=True, heap="3g",
                          simulate="num=%d" % mode[1], depth=mode[2], seed=seed, edge_limit=1500000)
+        return name, mode, g
+
+    gpool = ThreadPoolExecutor(max_workers=4)
+    graph_futs = [gpool.submit(graph_of, n) for n in REPLAY[tier]]
+
+    traces = []
+    # (3) free-running histories
+    nproc = min(8, maxw)
+    per = (60 if big else 12)
+    params = {"histories": per, "perEndMin": 2, "perEndMax": 4 if big else 3, "ops": 3 if big else 2, "maxWrite": 3}
+    outs = common.run_parallel(binary, "TestFree", [{"seed": seed * 1000 + i, "params": params, "tier": tier} for i in range(nproc)], 600)
+    nfree = 0
+    for res, out, rc in outs:
+        res = crash_or_absorb(v, res, out, rc, "free-running histories")
+        nfree += res["behaviours"]
+        for t in res.get("traces") or []:
+            traces += split_traces(t)
+    v.coverage["free_histories"] = nfree
+    vlib.log("[c15] %d free-running histories (%.0fs)" % (nfree, time.time() - t0))
+
+    # (3b) race probes (direct oracles only): store-then-close windows, timer expiry against re-arm
+    outs = common.run_parallel(binary, "TestRace", [{"seed": seed * 100 + i, "params": {"trials": 2000 if big else 300}, "tier": tier}
+                                                    for i in range(8 if big else 2)], 900)
+    nrace = 0
+    for res, out, rc in outs:
+        res = crash_or_absorb(v, res, out, rc, "race probes", {"race": "any"})
+        nrace += res["behaviours"]
+    v.coverage["race_probe_trials"] = nrace
+
+    behs = []
+    v.coverage["replay_graphs"] = {}
+    for f in graph_futs:
+        name, mode, g = f.result()
         if g.violation:
             raise vlib.Broken("replay graph %s violates %s" % (name, g.violation))
         graph = vlib.Graph(g)
@@ -237,10 +280,10 @@ def run(tier, seed, replay):
         behs += [graph.behaviour(p) for p in paths + walks]
         v.coverage["replay_graphs"][name] = {"mode": mode, "distinct": g.distinct, "edges": len(graph.edges), "cover_paths": len(paths),
                                              "uncovered_edges": left, "random_walks": len(walks)}
+    gpool.shutdown()
     vlib.log("[c15] %d behaviours to replay (%.0fs)" % (len(behs), time.time() - t0))
     outs = common.run_parallel(binary, "TestReplay", [{"behaviours": c, "seed": seed + i, "tier": tier}
                                                       for i, c in enumerate(common.chunks(behs, min(16, maxw)))], 900)
-    traces = []
     nrep = steps = ndrift = 0
     distinct = 0
     for res, out, rc in outs:
@@ -256,29 +299,6 @@ def run(tier, seed, replay):
     v.coverage["replay_behaviours_with_drift"] = ndrift
     v.coverage["distinct_call_outcomes_replayed"] = distinct
     vlib.log("[c15] replayed %d behaviours, %d with drift (%.0fs)" % (nrep, ndrift, time.time() - t0))
-
-    # (3) free-running histories
-    nproc = min(8, maxw)
-    per = (60 if big else 12)
-    params = {"histories": per, "perEndMin": 2, "perEndMax": 4 if big else 3, "ops": 3 if big else 2, "maxWrite": 3}
-    outs = common.run_parallel(binary, "TestFree", [{"seed": seed * 1000 + i, "params": params, "tier": tier} for i in range(nproc)], 600)
-    nfree = 0
-    for res, out, rc in outs:
-        res = crash_or_absorb(v, res, out, rc, "free-running histories")
-        nfree += res["behaviours"]
-        for t in res.get("traces") or []:
-            traces += split_traces(t)
-    v.coverage["free_histories"] = nfree
-    vlib.log("[c15] %d free-running histories, %d traces to validate (%.0fs)" % (nfree, len(traces), time.time() - t0))
-
-    # (3b) race probes (direct oracles only): store-then-close windows, timer expiry against re-arm
-    outs = common.run_parallel(binary, "TestRace", [{"seed": seed * 100 + i, "params": {"trials": 2000 if big else 300}, "tier": tier}
-                                                    for i in range(8 if big else 2)], 900)
-    nrace = 0
-    for res, out, rc in outs:
-        res = crash_or_absorb(v, res, out, rc, "race probes", {"race": "any"})
-        nrace += res["behaviours"]
-    v.coverage["race_probe_trials"] = nrace
 
     # (4) TLC trace validation of every recorded history
     nb = max(1, min(maxw, 12))
